@@ -224,11 +224,11 @@ def composed_tx(count, rng):
     cases = []
     for k in range(count):
         a = rng.randint(1, 4)
-        b = a if rng.random() < 0.7 else rng.randint(1, 4)
-        ca = rng.random() < 0.7
-        cb = ca if rng.random() < 0.8 else not ca
+        b = a if rng.random() < 0.8 else rng.randint(1, 4)
+        ca = rng.random() < 0.75
+        cb = ca if rng.random() < 0.85 else not ca
         n = a + b + rng.randint(0, 2)
-        mask = rng.choice([31, 15, 5, 0, 1, 4])
+        mask = rng.choice([31, 13, 5, 0, 1, 4])
         init = [f"new 3 {n} {mask}"] + gens.value_lines(rng, n, mask, dim=3, pv=rng.choice([1.0, 1.0, 0.6]),
                                                          pa=rng.choice([1.0, 0.5, 0.0]))
         left, right = list(range(1, a + 1)), list(range(a + 1, a + b + 1))
@@ -237,6 +237,14 @@ def composed_tx(count, rng):
         if rng.random() < 0.5:
             rng.shuffle(links)
         ld, rd = rng.choice(left), rng.choice(right)
+        if ca and cb and a == b and a >= 2 and rng.random() < 0.8:
+            # coordinates of a geometrically consistent gluing: the k-th dart of the right walk sits on the head of the
+            # k-th dart of the left walk (so the orientation test of three_sew passes and the merges are of equal points)
+            i0, j0 = left.index(ld), right.index(rd)
+            pts = [f"{gens.dy(rng)} {gens.dy(rng)} {k}" for k in range(a)]
+            init = [x for x in init if not x.startswith("wv ")]
+            init += [f"wv {left[(i0 + k) % a]} {pts[k]}" for k in range(a)]
+            init += [f"wv {right[(j0 - k) % a]} {pts[(k + 1) % a]}" for k in range(a)]
         ops = links + [f"{rng.choice(['sew', 'sew', 'link'])} 3 {ld} {rd}"]
         darts = list(range(1, n + 1))
         for _ in range(rng.choice([0, 0, 1, 2, 3])):
